@@ -99,6 +99,7 @@ def step (line : String) : String :=
       match parseFindings n r with
       | some fs =>
         let render := fun f => (Cppcheck.Template.toString (brk == "1") noSrc f (vb == "1") tf tl).getD []
+        if fs.any (fun f => (Cppcheck.Template.toString (brk == "1") noSrc f (vb == "1") tf tl).isNone) then "noreturn" else
         let kept := Cppcheck.Template.stdLogger render fs
         -- findings are compared structurally; report positions (first occurrence of each kept finding, in order)
         let rec pos (ks : List Finding) (all : List Finding) (i : Nat) : List Nat :=
@@ -109,6 +110,23 @@ def step (line : String) : String :=
         " ".intercalate ((pos kept fs 0).map toString) ++ " |" ++ String.join (kept.map fun f => " " ++ toHex (render f))
       | none => "bad-op"
     | _, _, _ => "bad-op"
+  | ["jparse", d] =>
+    -- the strict JSON reader of the model on a SARIF document: results as  id text level n {uri line col}*  joined by " ; "
+    match fromHex d with
+    | some d =>
+      match Cppcheck.Sarif.jsonParse d with
+      | none => "json=0"
+      | some j =>
+        match Cppcheck.Sarif.reportResults j with
+        | none => "json=1 results=none"
+        | some rs =>
+          let one (r : Cppcheck.Sarif.Json) : String :=
+            match Cppcheck.Sarif.readResult r with
+            | none => "unreadable"
+            | some x => s!"{toHex x.ruleId} {toHex x.text} {String.ofList x.level} {x.locs.length}" ++
+                String.join (x.locs.map fun (u, l, c) => s!" {toHex u} {l} {c}")
+          "json=1 " ++ " ; ".intercalate (rs.map one)
+    | none => "bad-op"
   | ["crit"] => " ".intercalate Cppcheck.Sarif.criticalIds
   | _ => "bad-op"
 
